@@ -45,6 +45,7 @@ fn main() {
     let arg = args.get(3).map(|s| s.as_str());
     let code = match prop {
         "C01" => dispatch(props::c01::C01, mode, arg),
+        "C03" => dispatch(props::c03::C03, mode, arg),
         _ => {
             eprintln!("unknown property {}", prop);
             2
